@@ -27,4 +27,13 @@ theorem purePdf_no_hidden_state :
     Gen.Pdf417.fact_globalWrites = [] ∧ Gen.Pdf417.fact_aliasAssign = [] ∧ Gen.Pdf417.fact_fixedArrays = [] ∧ Gen.Pdf417.fact_receiverWrites = [] := by
   decide
 
+/-- The library routines these packages call are exactly the ones the models were written against (DESIGN §7, item 5):
+    a body that starts to use another routine — `math/bits.Div` instead of `big.Int.DivMod`, `hash/crc32`,
+    `bytes.TrimPrefix`, `strings.HasPrefix` — is outside what the model mirrors, whether or not an input shows it. -/
+theorem purePdf_external_calls :
+    Gen.Root.fact_externalCalls = ["(image.Image).At", "(image.Image).Bounds", "(image.Image).ColorModel", "errors.New", "fmt.Errorf", "image.Rect", "math.Min"] ∧
+    Gen.Utils.fact_externalCalls = ["(*sync.Mutex).Lock", "(*sync.Mutex).Unlock", "image.Rect"] ∧
+    Gen.Pdf417.fact_externalCalls = ["(*math/big.Int).Cmp", "(*math/big.Int).DivMod", "(*math/big.Int).Int64", "(*math/big.Int).SetString", "errors.New", "fmt.Errorf", "image.Rect", "math.Abs", "math/big.NewInt"] := by
+  decide
+
 end BV.Props.PurePdf
